@@ -103,11 +103,39 @@ def analyse_method(repo, res, prop, cname, fi, directed, writer_names, trusted=(
             if rp.callee is not None and not callee_may_raise(repo, cname, rp.callee, rp.validated, directed, writer_names):
                 res.inst("R-EXC", f"{cname}.{fi.name}:{getattr(rp.stmt, 'lineno', 0)} call of self.{rp.callee}() cannot raise with validated arguments [{vdesc}]", True)
                 continue
-            prefix = [e for e in evs if e.order < rp.order and compatible(e.conds, rp.conds)]
+            in_finally = lambda e: any(a <= e.order <= b for a, b in rp.final_ranges)
+            prefix = [e for e in evs if (e.order < rp.order or in_finally(e)) and compatible(e.conds, rp.conds)]
+            fin = [e for e in evs if in_finally(e)]
+            rp_loops = tuple(rp.loops)
+            between_iterations = False
+            if fin and isinstance(rp.stmt, (ast.For, ast.AsyncFor)):
+                # the iteration protocol itself raises (a one-shot iterator that fails midway): between two iterations
+                inside = {id(x) for b in rp.stmt.body for x in ast.walk(b)}
+                lids = [e.loops[len(rp_loops)] for e in evs if id(e.stmt) in inside and len(e.loops) > len(rp_loops) and tuple(e.loops[: len(rp_loops)]) == rp_loops]
+                if lids:
+                    rp_loops = rp_loops + (lids[0],)
+                    between_iterations = True
+            post_loop_finally = bool(rp_loops) and any(tuple(e.loops[: len(rp_loops)]) != rp_loops for e in fin)
             try:
-                d = bal.check(prefix, fixed_loops=rp.loops)
-                loop_unbalanced = None
-                for lid in rp.loops:
+                if post_loop_finally:
+                    # try: <loop> finally: <settle>: when an iteration raises, the finally block settles what the completed
+                    # iterations did.  Completed iterations = the loop's events over (a part of) its domain, the same part
+                    # on both sides; the iteration that raises = its events so far, with the loop variable fixed.
+                    k = 0
+                    while k < len(rp_loops) and all(len(e.loops) > k and e.loops[k] == rp_loops[k] for e in fin):
+                        k += 1
+                    outer = tuple(rp_loops[:k])
+                    in_inner = lambda e: tuple(e.loops[: k + 1]) == tuple(rp_loops[: k + 1])
+                    whole = [e for e in evs if ((e.order < rp.order and not in_inner(e) and compatible(e.conds, rp.conds)) or in_inner(e) or in_finally(e))]
+                    d = bal.check(whole, fixed_loops=outer)
+                    partial = [] if between_iterations else [e for e in evs if e.order < rp.order and tuple(e.loops[: len(rp_loops)]) == rp_loops and compatible(e.conds, rp.conds)]
+                    if not d and partial:
+                        d = bal.check(partial, fixed_loops=rp_loops)
+                    loop_unbalanced = None
+                else:
+                    d = bal.check(prefix, fixed_loops=rp.loops)
+                    loop_unbalanced = None
+                for lid in (() if post_loop_finally else rp.loops):
                     body = [e for e in evs if lid in e.loops]
                     d2 = bal.check(body, fixed_loops=tuple(l for l in rp.loops))
                     if d2 and not any(e.order > rp.order for e in body):
